@@ -15,8 +15,10 @@
    nil pointers are `None`; Go's [32]byte values are byte lists (32 bytes long in every case the
    harness can produce; the theorems carry the length as a boolean guard). A Go runtime panic
    (innerHash on a header whose Version is neither 0 nor 1) is the outcome Panic.
+   ahtree.VerifyConsistency is verify_consistency_fixed of coq/Merkle/VerifyFixed.v (the verifier
+   since /repo commit 05f2785: the number of terms must be consistencyProofLen(i, j)).
    No proofs in this file. *)
-From V Require Export Merkle.Verify Store.Codec.
+From V Require Export Merkle.Verify Merkle.VerifyFixed Store.Codec.
 
 Definition zeros32 : bytes := repeat 0 32.
 Definition two64 : N := 18446744073709551616.
@@ -152,7 +154,7 @@ Definition verify_dual_proof_gen (repaired : bool) (p : option dual_proof) (src 
          negb (verify_inclusion H (dp_incl p) src (h_bltxid th) (leaf_for salh) (h_blroot th))
       then Ok false else
       do c <- (if 0 <? h_bltxid sh
-               then verify_consistency H (dp_cons p) (h_bltxid sh) (h_bltxid th) (h_blroot sh) (h_blroot th)
+               then verify_consistency_fixed H (dp_cons p) (h_bltxid sh) (h_bltxid th) (h_blroot sh) (h_blroot th)
                else Ok true);
       if negb c then Ok false else
       if (0 <? h_bltxid th) &&
@@ -196,9 +198,9 @@ Definition verify_dual_proof_v2 (p : option dual_proof_v2) (src tgt : N) (salh t
       if negb (verify_inclusion H (d2_incl p) src (h_bltxid th) (leaf_for salh) (h_blroot th))
       then Ok false else
       if src =? 1 then
-        verify_consistency H (d2_cons p) src (h_bltxid th) (leaf_for salh) (h_blroot th)
+        verify_consistency_fixed H (d2_cons p) src (h_bltxid th) (leaf_for salh) (h_blroot th)
       else
-        verify_consistency H (d2_cons p) (h_bltxid sh) (h_bltxid th) (h_blroot sh) (h_blroot th)
+        verify_consistency_fixed H (d2_cons p) (h_bltxid sh) (h_bltxid th) (h_blroot sh) (h_blroot th)
     | _, _ => Ok false
     end
   end.
